@@ -204,7 +204,7 @@ pub fn needs_parens_in_prefix(child_expr: &SpannedExpr) -> bool {
 pub fn needs_parens_in_postfix(child_expr: &SpannedExpr) -> bool {
     match &child_expr.node {
         Expr::BinaryOp { .. } | Expr::UnaryOp { .. } | Expr::Spread(_) => true,
-        Expr::Number(n) => n.is_sign_negative() || !n.is_finite(),
+        Expr::Number(n) => n.is_sign_negative() || n.is_nan(),
         _ => is_open_ended(child_expr),
     }
 }
@@ -251,6 +251,13 @@ fn write_expr(spanned_expr: &SpannedExpr, scope: Option<&Scope>) -> String {
         Expr::Number(n) => {
             if n.is_finite() {
                 number_to_source(*n)
+            } else if n.is_infinite() {
+                // a literal too large for a double stays a literal (`inf` would read back as an identifier)
+                if n.is_sign_positive() {
+                    "1e999".to_string()
+                } else {
+                    "(-1e999)".to_string()
+                }
             } else {
                 non_finite_to_source(*n)
             }
